@@ -5,7 +5,7 @@ import z3
 
 from .. import common, relmodel, templates
 from ..driver import HOLDS, INCONCLUSIVE, UNDECIDED, VIOLATION
-from ..prog import (Env, IllTyped, add_abstract_leaf, build, cols_of, fmt, from_jsonable, ops_of, pyeval, sem_seq, sem_tree,
+from ..prog import (Env, IllFormed, IllTyped, add_abstract_leaf, build, cols_of, fmt, from_jsonable, ops_of, pyeval, sem_seq, sem_tree,
                     to_jsonable)
 from ..symx import Skip, SymInt, explore, zint
 
@@ -240,7 +240,10 @@ def run_shape(shape, tier):
         if rel.is_trivial:
             obs.append(("is_trivial => identity or empty", z3.Or(cnt == 0, z3.And(cnt == 1, z3.BoolVal(not ref.cols))), {}))
         if ("chain" in ops_of(prog) or has_join) and any(u in SPECIAL for u in used):
-            got = sem_tree(rel, env)
+            try:
+                got = sem_tree(rel, env)
+            except IllFormed as e:
+                return obs + [("returned tree is well-formed", False, {"why": str(e), "tree": str(rel)})]
             obs.append(("tree content == sequence content (short-cuts)", relmodel.mset_eq(relmodel.unordered(got), relmodel.unordered(ref))
                         if not _has_slice(prog) else (relmodel.index_order(got).count() == cnt), {"tree": str(rel)}))
         return obs
@@ -318,7 +321,14 @@ def concrete_check(prog, eng, rows, decl, bind):
     from ..prog import pytree
     if not any(u in SPECIAL for u in used):
         return False, "", None
-    got = pytree(rel, leafrows)
+    from ..prog import tree_problem
+    tp = tree_problem(rel)
+    if tp:
+        return True, "tree-ill-formed", tp[:160]
+    try:
+        got = pytree(rel, leafrows)
+    except Exception as e:  # noqa: BLE001
+        return True, f"tree-not-evaluable:{type(e).__name__}", str(e)[:100]
     if len(got) != cnt or (not _has_slice(prog) and common.canon(got) != common.canon(exp)):
         return True, "tree-content-differs", {"tree": str(rel), "expected": exp, "observed": got}
     return False, "", None
